@@ -47,6 +47,13 @@ def run_script(m, script, ins):
                 regs[st[1]] = r.fields[0]; out.append("Ok")
             else:
                 out.append({"err": to_tree(m, r.fields[0])})
+        elif op == "expand_defgate_sequences":
+            r = m.call_path("Program::expand_defgate_sequences::<Filter>", [_clone(m, get(st[2])), PyFn(lambda mm, name: True, "filter-all")])
+            m.force_tag(r)
+            if r.tag == 0:
+                regs[st[1]] = r.fields[0]; out.append("Ok")
+            else:
+                out.append({"err": to_tree(m, r.fields[0])})
         elif op == "simplify":
             r = m.call_path("Program::simplify::<DefaultHandler>", [Ref([get(st[2])], 0), Ref([Agg("DefaultHandler", None, [])], 0)])
             m.force_tag(r)
